@@ -1,6 +1,16 @@
 from __future__ import division, print_function
+import os
 import random
 import numpy as np
+
+# verification hook (inactive unless BCTPY_VERIF=1 and a callback is installed)
+_VERIF = os.environ.get('BCTPY_VERIF') == '1'
+_verif_hook = None
+
+
+def _verif(event, **state):
+    if _VERIF and _verif_hook is not None:
+        _verif_hook(event, **state)
 
 
 class BCTParamError(RuntimeError):
